@@ -6,6 +6,7 @@ import (
 	"encoding/hex"
 	"encoding/json"
 	"fmt"
+	"os"
 
 	txfile "github.com/elastic/go-txfile"
 
@@ -51,7 +52,11 @@ func (e *Env) Enabled(op Op) bool {
 
 func (e *Env) try(what string, fn func()) bool {
 	if pn := pagedrv.Try(fn); pn != "" {
-		e.violate("queue/panic/"+what, "%s panicked: %s", what, firstLine(pn))
+		msg := firstLine(pn)
+		if os.Getenv("VERIF_STACK") != "" {
+			msg = pn
+		}
+		e.violate("queue/panic/"+what, "%s panicked: %s", what, msg)
 		e.Dead = true
 		return false
 	}
